@@ -652,6 +652,12 @@ class Prefix:
         symbol: Optional[str] = None,
     ) -> "Prefix":
         if base != 0 and exponent == 0:
+            # any base to the power zero is the identity prefix; declaring a name or a
+            # symbol for it would silently be lost, so refuse it before anything changes
+            if name or symbol:
+                raise ValueError(
+                    f"{base}**0 is the identity prefix and cannot be named {name or symbol}"
+                )
             return IdentityPrefix
 
         key = (base, exponent)
